@@ -247,10 +247,13 @@ Proof. vm_compute. reflexivity. Qed.
 (* ---------- the actors of every mixed correspondence case meet the hypotheses of the theorem ---------- *)
 Lemma wf_prog_of_mop l o : mop_ok cop_ok o = true -> wf_prog (prog_of_mop l o) = true.
 Proof.
-  destruct o as [c|ts [th|]]; cbn [mop_ok prog_of_mop]; intros H.
+  destruct o as [c|ts [th|]|th ts]; cbn [mop_ok prog_of_mop]; intros H.
   - apply wf_prog_of_cop. exact H.
   - apply wf_prog_app; [apply wf_session; exact H|apply wf_locked_call; reflexivity].
   - apply wf_session. exact H.
+  - apply wf_prog_concat. induction ts as [|t r IH]; cbn [map]; constructor.
+    + cbn [forallb] in H. apply andb_true_iff in H. apply wf_locked_call. tauto.
+    + apply IH. cbn [forallb] in H. apply andb_true_iff in H. tauto.
 Qed.
 
 Lemma mix_from_wf l : forall acts i,
